@@ -51,6 +51,14 @@ func (s *FuzzServiceStub) ImportBlock(block types.Block) (types.StateRoot, error
 		defer cs.TrimUnfinalizedBlocksForFuzz()
 	}
 
+	// Remember the head this import starts from: a rejected block must leave no trace
+	// (see the protocol-error path below).
+	var (
+		headHash     types.HeaderHash
+		headKnown    bool
+		headAncestry = cs.GetAncestry()
+	)
+
 	blocks := cs.GetBlocks()
 	if len(blocks) > 0 {
 		latestBlock := cs.GetLatestBlock()
@@ -59,6 +67,7 @@ func (s *FuzzServiceStub) ImportBlock(block types.Block) (types.StateRoot, error
 		if err != nil {
 			return types.StateRoot{}, fmt.Errorf("error computing latest block hash: %w", err)
 		}
+		headHash, headKnown = latestBlockHash, true
 
 		ancestry := cs.GetAncestry()
 		var latestAncestry types.AncestryItem
@@ -113,6 +122,15 @@ func (s *FuzzServiceStub) ImportBlock(block types.Block) (types.StateRoot, error
 		// The returned state root is discarded by the server (it replies with
 		// an ErrorMessage), so there is no need to compute the prior root here.
 		logger.Errorf("%s [PROTOCOL] block invalid: %v", ctx, err)
+		// Import is atomic: the rejected block was appended as the latest block, the
+		// restore above may have moved the head and trimmed the ancestry, and RunSTF
+		// updates parts of the prior state in place before a later check fails. Drop
+		// the block and reload the previous head from the store.
+		if headKnown {
+			if rbErr := cs.RollbackRejectedBlock(headHash, headAncestry); rbErr != nil {
+				logger.Errorf("%s rollback after rejected block failed: %v", ctx, rbErr)
+			}
+		}
 		return types.StateRoot{}, err
 	}
 
